@@ -118,7 +118,7 @@ def build(spec):
     expanded = []
     for q in spec['queries']:
         expanded.append((q, host))
-        if q.get('also_on') is not None and q['ref']['sheet'] is None and q['also_on'] != host and not q.get('missing') \
+        if q.get('also_on') is not None and q['ref']['sheet'] is None and q['also_on'] != host and q.get('missing') is None \
                 and not spec['sheets'][q['also_on']].get('empty') and q['pos'] in ('bare', 'SUM', 'COUNT', 'MAX', 'INDEX', 'COLUMN', 'VLOOKUP'):
             # the same text again on another sheet: an unqualified reference means the sheet of the formula
             expanded.append((q, q['also_on']))
@@ -130,7 +130,7 @@ def build(spec):
         si = r['sheet'] if r['sheet'] is not None else home
         r = dict(r)
         r['sheet_title'] = spec['sheets'][si]['title'] if q['ref']['sheet'] is not None else None
-        if q.get('missing'):
+        if q.get('missing') is not None:
             r['sheet_title'] = q['missing']
         content = contents[si]
         txt = ref_text(r)
@@ -156,7 +156,7 @@ def build(spec):
         fragile_title = tcls in ('bang', 'apostrophe') and r['sheet_title'] is not None
         meta = {'fragile_title': fragile_title, 'title_class': tcls, 'ref': txt}
         pos = q['pos']
-        if q.get('missing'):
+        if q.get('missing') is not None:
             forms_ = [f'=SUM({txt})' if r['kind'] != 'cell' else f'={txt}', f'=IFERROR({txt},7)' if r['kind'] == 'cell' else f'=IFERROR(SUM({txt}),7)',
                       f'=IF(1,2,COUNT({txt}))', f'=IFERROR(INDEX({txt},1,1)+1,0)' if r['kind'] != 'cell' else f'=IFERROR(7,{txt})']
             qs.append(Q(forms_[q.get('pick', 0) % len(forms_)], ANY_ERR, 'missing-title', True, tags + ['missing-title'], meta={**meta, 'missing': True}))
@@ -207,7 +207,7 @@ def build(spec):
             col = 1 + q['pick2'] % len(coords[0])
             qs.append(Q(f'=VLOOKUP({key},{txt},{col},FALSE)', val(content, *coords[i][col - 1]), f'VLOOKUP:{r["kind"]}', nt, tags, meta=meta))
         elif pos == 'MATCH':
-            if r['kind'] != 'area' or r['c0'] != r['c1']:
+            if r['kind'] not in ('area', 'cols') or r['c0'] != r['c1']:
                 continue
             present = [i for i, row in enumerate(coords) if val(content, *row[0]) is not F.BLANK]
             if not present:
@@ -215,14 +215,27 @@ def build(spec):
             i = present[q['pick'] % len(present)]
             qs.append(Q(f'=MATCH({val(content, *coords[i][0])},{txt},0)', i + 1, 'MATCH', nt, tags, meta=meta))
         elif pos in ('SUMIF', 'SUMIFS', 'COUNTIFS', 'AVERAGEIFS'):
-            if r['kind'] != 'area':
+            if r['kind'] not in ('area', 'cols') or (r['kind'] == 'cols' and r['c0'] != r['c1']):
                 continue
-            # criteria range = the reference; target = same shape shifted by q['shift'] columns on the same sheet (own map)
+            # criteria range = the reference; target = same shape shifted by q['shift'] columns, on the same sheet or (every third
+            # case) at the same place of another sheet
             sh = q.get('shift', 0)
             tgt = dict(r)
             tgt['c0'], tgt['c1'] = r['c0'] + sh, r['c1'] + sh
+            tcontent = content
+            others_ = [k for k in range(len(spec['sheets'])) if k != si and not spec['sheets'][k].get('empty')]
+            if q['pick2'] % 3 == 0 and others_ and not far:
+                tsi_ = others_[q['pick'] % len(others_)]
+                tgt['sheet_title'] = spec['sheets'][tsi_]['title']
+                tgt['quoted'] = not can_unquote(tgt['sheet_title']) or bool(q['pick'] % 2)
+                tcontent = contents[tsi_]
+                if r['kind'] == 'cols' and max([rr for (_, rr) in tcontent] + [0]) != stored_rows:
+                    continue    # whole columns of sheets with different numbers of rows: ranges of different sizes
+                if tgt['sheet_title'] == spec['sheets'][home]['title']:
+                    continue    # the target would lie on the sheet of the formula block
+                tags = tags + ['target-on-another-sheet']
             ttxt = ref_text(tgt)
-            tflat = [val(content, c + sh, rr) for row in coords for (c, rr) in row]
+            tflat = [val(tcontent, c + sh, rr) for row in coords for (c, rr) in row]
             picked = [t for v, t in zip(flat, tflat) if v is not F.BLANK]
             pnums = [t for t in picked if t is not F.BLANK]
             if pos == 'SUMIF':
@@ -381,7 +394,8 @@ def strategy():
             for _ in range(2):
                 queries.append({'ref': {'sheet': 0, 'quoted': draw(st.booleans()), 'kind': draw(st.sampled_from(['cell', 'area'])), 'c0': 1, 'r0': 1,
                                         'c1': 2, 'r1': 2, 'd': [False] * 4}, 'pos': 'bare',
-                                'missing': draw(st.sampled_from(['Nope', 'Sheet99', 'data', 'DATA ', 'T2'])), 'pick': draw(st.integers(0, 3)), 'pick2': 0, 'index_at': [], 'shift': 0})
+                                'missing': draw(st.sampled_from(['Nope', 'Sheet99', 'data', 'DATA ', 'T2', '[1]' + titles[0], '[0]' + titles[-1], '[12]' + titles[0], titles[0] + ' ', '_' + titles[0], ''])),
+                                'pick': draw(st.integers(0, 3)), 'pick2': 0, 'index_at': [], 'shift': 0})
         return {'sheets': sheets, 'host': host, 'queries': queries, 'override_blanks': (not far_mode) and draw(st.integers(0, 3)) == 0}
     return spec().filter(lambda s: all(q.get('missing') is None or q['missing'].lower() not in {sh['title'].lower() for sh in s['sheets']} for q in s['queries']))
 
